@@ -483,11 +483,30 @@ func checkInject(args []string) *finding {
 			return &finding{"inject-mapping", "named arguments are mapped to keys and positional ones to $0,$1,... in order", fmt.Sprintf("InjectArgs(%q): key %q = %v, want %q", args, k, ds.Value(k), v)}
 		}
 	}
+	if extra := ds.Value(fmt.Sprintf("$%d", pos)); extra != nil {
+		return &finding{"inject-mapping", "named arguments are mapped to keys and positional ones to $0,$1,... in order", fmt.Sprintf("InjectArgs(%q): %d positional arguments, but key $%d = %v", args, pos, pos, extra)}
+	}
 	gotRest, _ := ds.Value("--").([]string)
 	if strings.Join(gotRest, "\x00") != strings.Join(rest, "\x00") {
 		return &finding{"inject-separator", "arguments after '--' are kept apart", fmt.Sprintf("InjectArgs(%q): '--' holds %q, want %q", args, gotRest, rest)}
 	}
 	return nil
+}
+
+// longLists: argument lists with 0..max positional arguments ("$0,$1,... in order" for indices of more
+// than one digit), alone, with a named argument after every positional one, and with a '--' tail.
+func longLists(max int, f func(args []string)) {
+	for n := 0; n <= max; n++ {
+		var plain, mixed []string
+		for i := 0; i < n; i++ {
+			w := fmt.Sprintf("w%d", i)
+			plain = append(plain, w)
+			mixed = append(mixed, w, fmt.Sprintf("k%d=v%d", i, i))
+		}
+		f(plain)
+		f(mixed)
+		f(append(append([]string{}, plain...), "--", "tail", "k=z"))
+	}
 }
 
 // checkHeredoc: a heredoc argument comes back as the text between the marker lines and the
@@ -655,6 +674,20 @@ func run(c *fw.Ctx) {
 			}
 		}
 	}
+	// D2: long lists (two- and three-digit positional indices)
+	if c.Mine(5000001) {
+		maxPos := 40
+		if c.Thorough() {
+			maxPos = 150
+		}
+		longLists(maxPos, func(args []string) {
+			c.R.Evaluations++
+			c.Count("inject_long_lists", 1)
+			if f := checkInject(args); f != nil {
+				report(f, witness{Inject: args})
+			}
+		})
+	}
 	// C: rendered lists
 	n := len(pool)
 	listItem := 0
@@ -785,7 +818,7 @@ func replay(wj json.RawMessage) (*fw.Violation, error) {
 
 func init() {
 	fw.Register(&fw.Check{ID: "C17", Level: "exploration",
-		Rule: "ALL byte strings of length <= 7 (quick) / <= 9 (thorough) over the alphabet {space, tab, newline, '\"', backslash, '=', '<', 'a', 0xff}: totality on every one (no panic, terminates, reader drained call by call), SplitArguments agreeing with the first ReadArguments call, and no byte >= 0x80 occurring more often in the arguments than in the input (whatever the context: bare, after a backslash, quoted, heredoc); ALL strings of length <= 4 / <= 5 over the blank-like alphabet {space, tab, 'a', CR, VT, FF, NUL, 0xc2, 0x85, 0xa0, 0xe3, 0x80} (these are word bytes); all pairs of strings of length <= 3 split from two readers in alternation (each call as when split alone; arguments handed out earlier never change); strings without quote/backslash/heredoc additionally against the plain-word reference (per-line blank-separated fields byte for byte, eof flags); strings whose backslashes precede a letter, another backslash (escaped backslash = word byte) or a continuation newline against the argument-count and line-boundary reference. Plus every argument list of <= 3 arguments from a 14-entry pool rendered in every applicable form (bare, quoted, heredoc) with 4 separators (incl. backslash-newline), followed by a second command; plus InjectArgs mapping on each list; plus every heredoc body of <= 4 (quick) / <= 5 (thorough) symbols over {a, newline, E, O, F, space, 0xff} with marker EOF (bodies ending in empty lines or in a prefix of the marker included). distinct = inputs",
+		Rule: "ALL byte strings of length <= 7 (quick) / <= 9 (thorough) over the alphabet {space, tab, newline, '\"', backslash, '=', '<', 'a', 0xff}: totality on every one (no panic, terminates, reader drained call by call), SplitArguments agreeing with the first ReadArguments call, and no byte >= 0x80 occurring more often in the arguments than in the input (whatever the context: bare, after a backslash, quoted, heredoc); ALL strings of length <= 4 / <= 5 over the blank-like alphabet {space, tab, 'a', CR, VT, FF, NUL, 0xc2, 0x85, 0xa0, 0xe3, 0x80} (these are word bytes); all pairs of strings of length <= 3 split from two readers in alternation (each call as when split alone; arguments handed out earlier never change); strings without quote/backslash/heredoc additionally against the plain-word reference (per-line blank-separated fields byte for byte, eof flags); strings whose backslashes precede a letter, another backslash (escaped backslash = word byte) or a continuation newline against the argument-count and line-boundary reference. Plus every argument list of <= 3 arguments from a 14-entry pool rendered in every applicable form (bare, quoted, heredoc) with 4 separators (incl. backslash-newline), followed by a second command; plus InjectArgs mapping on each list and on lists of 0..40 (thorough 150) positional arguments (alone, interleaved with named ones, with a '--' tail; no key beyond the last index); plus every heredoc body of <= 4 (quick) / <= 5 (thorough) symbols over {a, newline, E, O, F, space, 0xff} with marker EOF (bodies ending in empty lines or in a prefix of the marker included). distinct = inputs",
 		Run: run, Replay: replay,
 		Assumptions: []string{"length bound as stated; the 'randomly beyond' part is not claimed", "content of words containing a bare backslash is unspecified (only totality and argument count are required)", "an empty heredoc body cannot be rendered by the reference quoting (text must be non-empty)"}})
 }
